@@ -94,6 +94,13 @@ func checkC10(p *Prog, r *Report) {
 	r.rule("R10.3", "Left-overs are reused, avoided or removed under the audited conditions (tables/guards.tsv rows listing C10): fresh names and ids are tested against the names on the DEVICE (genUniqRuleNames / genUniqGroupNames of PAN-OS and NSX, generateNamesForTransfer.setName of Cisco); an identical group found on the device is taken over only if not already needed (findGroupOnDevice, equalizedGroups, adaptGroup); deletion candidates are the objects that are not needed and carry a generated name or are marked toDelete (deleteUnused and its protecting walk).")
 	ruleGuardTable(p, r, "R10.3", "C10")
 	ruleLookupsAudited(p, r, "R10.4", "C10", 20)
+	{
+		all := map[string]bool{"cisco": true, "asa": true, "ios": true, "panos": true, "nsx": true, "linux": true}
+		// a resumed run plans from what it reads now: no early exit, cache or reused buffer that the audited planner does not have
+		ruleExitsAudited(p, r, "R-X", "C10", all, 20)
+		ruleMemo(p, r, "R-MEMO", "C10", all, 12)
+		ruleBufferReuse(p, r, "R-REUSE", all)
+	}
 	r.rule("R-M", "Mark discipline: the marks needed / nameOnDevice (PAN-OS, NSX) and needed / ready / toDelete (Cisco) decide which left-over object is taken over and which is removed at the end; every store into them lies at an audited site with audited conditions (rows listing C10, compared by R10.3). A left-over object that is reused without being marked needed is deleted by the clean-up of the same run.")
 	ruleMarkDiscipline(p, r, "R-M", "C10", "panos", []string{".needed", ".nameOnDevice"}, 14)
 	ruleMarkDiscipline(p, r, "R-M", "C10", "nsx", []string{".needed", ".nameOnDevice"}, 6)
